@@ -276,6 +276,8 @@ enum Pre {
     ProcessDecided,
     ProcessOther,
     ProcessInvalid,
+    /// a proposal that is rejected only after some of its transactions have executed
+    ProcessPartial,
     /// the process restarts: a fresh App on the same storage
     Restart,
 }
@@ -286,6 +288,7 @@ const PRES: &[Pre] = &[
     Pre::ProcessOther,
     Pre::PrepareOther,
     Pre::ProcessInvalid,
+    Pre::ProcessPartial,
     Pre::Restart,
 ];
 
@@ -397,6 +400,7 @@ struct Material {
     decided: Proposal,
     other: Proposal,
     invalid: Proposal,
+    partial: Proposal,
 }
 
 /// The decided block is built once per block kind by a real proposer; every path receives exactly
@@ -417,10 +421,17 @@ async fn build_material(kind: &BlockKind) -> Material {
         b[last] ^= 0x55;
         *first = b.into();
     }
+    // the other proposal followed by a transfer with a nonce gap: commitments stay valid (a transfer
+    // carries no rollup data), so it is rejected during execution, after `other`'s transactions ran
+    let mut partial = other.clone();
+    partial.salt = 4;
+    let gap_nonce = other_chain.nonce_of(&W).await + 7;
+    partial.txs.push(sign_tx(&W, gap_nonce, vec![transfer(&DAVE, 5, nria().into(), nria().into())]).expect("gapped transfer"));
     Material {
         decided,
         other,
         invalid,
+        partial,
     }
 }
 
@@ -429,6 +440,7 @@ async fn run_path(kind: &BlockKind, material: &Material, path: &[Pre]) -> PathOu
         decided,
         other,
         invalid,
+        partial,
     } = material.clone();
     // the node under test
     let mut node = Chain::universe().await;
@@ -451,6 +463,7 @@ async fn run_path(kind: &BlockKind, material: &Material, path: &[Pre]) -> PathOu
             Pre::ProcessDecided => node.fixture.app.process_proposal(decided.process_request(), storage.clone()).await.is_ok(),
             Pre::ProcessOther => node.fixture.app.process_proposal(other.process_request(), storage.clone()).await.is_ok(),
             Pre::ProcessInvalid => node.fixture.app.process_proposal(invalid.process_request(), storage.clone()).await.is_ok(),
+            Pre::ProcessPartial => node.fixture.app.process_proposal(partial.process_request(), storage.clone()).await.is_ok(),
             Pre::Restart => {
                 let mempool_backup = node.fixture.mempool();
                 let _ = mempool_backup;
@@ -562,7 +575,7 @@ fn verif_c05_paths() {
          removal of a currency pair priced by the block's own extended commit; removal and re-addition; pair addition + sudo \
          change), built by a real proposer through CheckTx + PrepareProposal with vote extensions signed by the genesis \
          validators: every sequence of <= {max_len} pre-calls from {{ProcessProposal(decided), PrepareProposal(decided \
-         mempool), ProcessProposal(other), PrepareProposal(other), ProcessProposal(invalid), restart}} ({} paths) followed by \
+         mempool), ProcessProposal(other), PrepareProposal(other), ProcessProposal(invalid), ProcessProposal(rejected after partial execution), restart}} ({} paths) followed by \
          FinalizeBlock(decided) + Commit on an identically built chain; differential oracle against the sync path (no \
          pre-calls): app hash, per-tx (code, data, gas), validator and consensus-parameter updates, full committed state dump, \
          and no path fails where another succeeds",
